@@ -103,3 +103,19 @@ def it(i, n, c=None):
     if c is not None:
         callout(c)  # evaluating the iterable expression is a call-out of its own
     return It(i, n)
+
+
+def _make_sc():
+    from mako.runtime import supports_caller
+
+    @supports_caller
+    def sc(context, i):
+        """a plain Python function taking part in the caller stack (mako.runtime.supports_caller)"""
+        callout(i)
+        context.write("sc%d" % i)
+        return ""
+
+    return sc
+
+
+sc = _make_sc()
